@@ -345,7 +345,7 @@ impl Shadow {
                 let i = ri(ino);
                 if i != 1 {
                     if let Some(e) = self.inos.get_mut(&i) {
-                        e.1 = e.1.saturating_sub(*count);
+                        e.1 = e.1.saturating_sub(*count & !crate::ops::VIA_BATCH);
                         if e.1 == 0 {
                             unsafe { libc::close(e.0) };
                             self.inos.remove(&i);
